@@ -89,7 +89,9 @@ impl B {
         }
     }
     pub fn input(&mut self, w: usize, signed: bool) -> String {
-        let name = format!("i{}", self.inputs.len());
+        // i8 / i16 / i32 / i64 are type keywords
+        let n = self.inputs.len();
+        let name = if matches!(n, 8 | 16 | 32 | 64) { format!("in{n}") } else { format!("i{n}") };
         self.inputs.push(Port { name: name.clone(), width: w, signed, output: false });
         name
     }
@@ -830,7 +832,8 @@ fn t_hierc(rng: &mut Rng) -> Case {
 fn t_frozen(rng: &mut Rng) -> Case {
     let mut b = B::new("frozen");
     b.has_ff = true;
-    let w = 1 + rng.usize(if rng.chance(1, 4) { 70 } else { 12 });
+    let mw = if rng.chance(1, 4) { 70 } else { 12 };
+    let w = 1 + rng.usize(mw);
     let lw = w.min(64);
     let x = b.input(w, false);
     let en = b.input(1, false);
@@ -842,6 +845,10 @@ fn t_frozen(rng: &mut Rng) -> Case {
         "module FzCfg (\n    i_clk: input clock,\n    i_rst: input reset,\n    we: input logic,\n    d: input logic<{w}>,\n    q: output logic<{w}>,\n    q2: output logic<{w}>,\n) {{\n    var r: logic<{w}>;\n    always_ff {{\n        if_reset {{\n            r = {};\n        }} else if we {{\n            r = d;\n        }}\n    }}\n    assign q = r;\n    always_ff {{\n        if_reset {{\n            q2 = 0;\n        }} else {{\n            q2 = r;\n        }}\n    }}\n}}\n\n",
         lit(rng, lw)
     ));
+    // memory writes only once the design has left its first reset: what a reset-less element captures from a
+    // register *before* that register was ever reset is unconstrained (the netlist may already hold the folded constant)
+    b.d("    var rdy: logic;");
+    b.b("    always_ff {\n        if_reset {\n            rdy = 0;\n        } else {\n            rdy = 1;\n        }\n    }");
     let nfrozen = 2 + rng.usize(3);
     for k in 0..nfrozen {
         let cfg = format!("cfg{k}");
@@ -850,7 +857,9 @@ fn t_frozen(rng: &mut Rng) -> Case {
             1 => format!("{lw}'h{:x}", if lw == 64 { u64::MAX } else { (1u64 << lw) - 1 }),
             _ => lit(rng, lw),
         };
-        let with_reset = !rng.chance(1, 6);
+        // a frozen register WITHOUT reset is left out on purpose: see notes/C20.md (open observation)
+        let with_reset = true;
+        let _ = rng.chance(1, 6);
         let how = rng.below(5);
         b.tally("frozen_registers", 1);
         if !with_reset {
@@ -940,7 +949,7 @@ fn t_frozen(rng: &mut Rng) -> Case {
                     let o = b.output(w, false);
                     let m = format!("{cfg}_mem");
                     b.d(&format!("    var {m}: logic<{w}> [{depth}];"));
-                    b.b(&format!("    always_ff {{\n        if {en} {{\n            {m}[{wa}] = {cfg};\n        }}\n    }}\n    assign {o} = {m}[{ra}];"));
+                    b.b(&format!("    always_ff {{\n        if {en} && rdy {{\n            {m}[{wa}] = {cfg};\n        }}\n    }}\n    assign {o} = {m}[{ra}];"));
                     b.arrays.push(depth * w);
                     b.ports = (1, 1);
                     b.tally("frozen_ff_feeds_memory_write_data", 1);
